@@ -282,6 +282,7 @@ impl AsyncSmtpConnection {
 
     /// Send EHLO and update server info
     async fn ehlo(&mut self, hello_name: &ClientId) -> Result<(), Error> {
+        try_smtp!(hello_name.check(), self);
         let ehlo_response = try_smtp!(self.command(Ehlo::new(hello_name.clone())).await, self);
         self.server_info = try_smtp!(ServerInfo::from_response(&ehlo_response), self);
         Ok(())
